@@ -2259,3 +2259,449 @@ Proof.
       * intros E. apply (f_equal (fun n => match n with Cmt c => c_name c | Out => [] end)) in E. cbn in E.
         apply Esd. apply (names_unique_spec _ Hu); [apply comps_In, Hs | apply comps_In, Hd | exact E].
 Qed.
+
+(* ================================================================================================ *)
+(* 17. to_compartmental_system: the round trip for systems of ANY size                              *)
+(* ================================================================================================ *)
+Lemma fold_left_flat_map {A B C} (f : A -> C -> A) (h : B -> list C) (l : list B) (a : A) :
+  fold_left f (flat_map h l) a = fold_left (fun a x => fold_left f (h x) a) l a.
+Proof. revert a. induction l as [|x tl IH]; intros a; cbn [flat_map fold_left]; [reflexivity|]. rewrite fold_left_app. apply IH. Qed.
+
+Lemma fold_left_pair {A B C} (f : A -> C -> A) (h : B -> C -> B) (step : A * B -> C -> A * B) :
+  (forall a b x, step (a, b) x = (f a x, h b x)) ->
+  forall l a b, fold_left step l (a, b) = (fold_left f l a, fold_left h l b).
+Proof. intros H. induction l as [|x tl IH]; intros a b; cbn [fold_left]; [reflexivity|]. rewrite H. apply IH. Qed.
+
+Lemma fold_left_ext_in {A B} (f h : A -> B -> A) (l : list B) :
+  (forall x a, In x l -> f a x = h a x) -> forall a, fold_left f l a = fold_left h l a.
+Proof.
+  induction l as [|x tl IH]; intros H a; cbn [fold_left]; [reflexivity|].
+  rewrite (H x a (or_introl eq_refl)). apply IH. intros y b Hy. apply H. right. exact Hy.
+Qed.
+
+Definition triple := (nat * nat * term)%type.
+Definition triples (eqs : list leq) : list triple :=
+  flat_map (fun i => flat_map (fun j => map (fun t => (i, j, t)) (filter (has_amount j) (nth_leq eqs i)))
+                              (seq 0 (length eqs))) (seq 0 (length eqs)).
+
+Definition gstep (cmts : list comp) (eqs : list leq) (g : graph) (tr : triple) : graph :=
+  let '(i, j, t) := tr in
+  if t_pos t then
+    match find_from eqs t with
+    | Some f =>
+        let from := Cmt (nthc cmts f) in
+        let to := Cmt (nthc cmts i) in
+        let cur := get_flow g from to in
+        add_edge g from to (if expr_eqb cur (Num 0%Q) then t_k t else Add (t_k t) cur)
+    | None => g
+    end
+  else g.
+
+Definition nstep (eqs : list leq) (ne : list leq) (tr : triple) : list leq :=
+  let '(i, j, t) := tr in
+  if t_pos t then
+    match find_from eqs t with
+    | Some f =>
+        let ne1 := set_nth ne i (sub_term (nth_leq ne i) t) in
+        if Nat.eqb i j then ne1 else set_nth ne1 j (add_term (nth_leq ne1 j) t)
+    | None => ne
+    end
+  else ne.
+
+Definition step3 (cmts : list comp) (eqs : list leq) (st : graph * list leq) (tr : triple) : graph * list leq :=
+  let '(i, j, t) := tr in step_term cmts eqs i j st t.
+
+Lemma main_flat cmts eqs st0 :
+  fold_left (step_eq cmts eqs) (seq 0 (length eqs)) st0 = fold_left (step3 cmts eqs) (triples eqs) st0.
+Proof.
+  unfold triples. rewrite fold_left_flat_map. apply fold_left_ext_in. intros i st _.
+  unfold step_eq. rewrite fold_left_flat_map. apply fold_left_ext_in. intros j st1 _.
+  generalize (filter (has_amount j) (nth_leq eqs i)) as l. intros l. revert st1.
+  induction l as [|t tl IH]; intros st1; cbn [map fold_left]; [reflexivity | apply IH].
+Qed.
+
+Lemma main_loop_split cmts eqs g0 ne0 :
+  fold_left (step_eq cmts eqs) (seq 0 (length eqs)) (g0, ne0)
+  = (fold_left (gstep cmts eqs) (triples eqs) g0, fold_left (nstep eqs) (triples eqs) ne0).
+Proof.
+  rewrite main_flat. apply fold_left_pair.
+  intros a b [[i j] t]. unfold step3, step_term, gstep, nstep. destruct (t_pos t); [|reflexivity].
+  destruct (find_from eqs t); reflexivity.
+Qed.
+
+(* ---- generic list facts ---------------------------------------------------------------------------- *)
+Lemma NoDup_flat_map {A B} (h : A -> list B) (l : list A) :
+  NoDup l -> (forall x, In x l -> NoDup (h x)) ->
+  (forall x y z, In x l -> In y l -> In z (h x) -> In z (h y) -> x = y) -> NoDup (flat_map h l).
+Proof.
+  induction l as [|a tl IH]; intros Hn H1 H2; cbn [flat_map]; [constructor|].
+  inversion Hn as [|? ? Ha Ht]; subst. apply NoDup_app_intro.
+  - apply H1. left. reflexivity.
+  - apply IH; [exact Ht | intros x Hx; apply H1; right; exact Hx|].
+    intros x y z Hx Hy. apply H2; right; assumption.
+  - intros z Hz Hz'. apply in_flat_map in Hz'. destruct Hz' as [y [Hy Hzy]].
+    assert (a = y) by (apply (H2 a y z); [left; reflexivity | right; exact Hy | exact Hz | exact Hzy]).
+    subst. contradiction.
+Qed.
+
+Lemma filter_flat_map {A B} (p : B -> bool) (h : A -> list B) (l : list A) :
+  filter p (flat_map h l) = flat_map (fun x => filter p (h x)) l.
+Proof. induction l as [|a tl IH]; cbn [flat_map]; [reflexivity|]. rewrite filter_app, IH. reflexivity. Qed.
+
+Lemma filter_map_comm {A B} (p : B -> bool) (f : A -> B) (l : list A) :
+  filter p (map f l) = map f (filter (fun x => p (f x)) l).
+Proof. induction l as [|a tl IH]; cbn [map filter]; [reflexivity|]. destruct (p (f a)); cbn [map]; rewrite IH; reflexivity. Qed.
+
+Lemma flat_map_ext_in {A B} (f h : A -> list B) (l : list A) :
+  (forall x, In x l -> f x = h x) -> flat_map f l = flat_map h l.
+Proof.
+  induction l as [|a tl IH]; intros H; cbn [flat_map]; [reflexivity|].
+  rewrite (H a (or_introl eq_refl)), IH; [reflexivity|]. intros x Hx. apply H. right. exact Hx.
+Qed.
+
+Lemma filter_all {A} (p : A -> bool) l : (forall t, In t l -> p t = true) -> filter p l = l.
+Proof.
+  induction l as [|a tl IH]; intros H; cbn [filter]; [reflexivity|].
+  rewrite (H a (or_introl eq_refl)), IH; [reflexivity|]. intros t Ht. apply H. right. exact Ht.
+Qed.
+Lemma filter_none {A} (p : A -> bool) l : (forall t, In t l -> p t = false) -> filter p l = [].
+Proof.
+  induction l as [|a tl IH]; intros H; cbn [filter]; [reflexivity|].
+  rewrite (H a (or_introl eq_refl)). apply IH. intros t Ht. apply H. right. exact Ht.
+Qed.
+
+(* a family indexed by a range, member j only has elements "of colour j": filtering by colour picks member j *)
+Lemma filter_colour (col : nat -> term -> bool) (f : nat -> list term) :
+  (forall j t, In t (f j) -> forall j', col j' t = Nat.eqb j' j) ->
+  forall m s j, filter (col j) (flat_map f (seq s m)) = if (s <=? j) && (j <? s + m) then f j else [].
+Proof.
+  intros H. induction m as [|m IH]; intros s j; cbn [seq flat_map filter].
+  - destruct (s <=? j) eqn:E1; cbn [andb]; [|reflexivity]. destruct (j <? s + 0) eqn:E2; [|reflexivity].
+    apply Nat.leb_le in E1. apply Nat.ltb_lt in E2. lia.
+  - rewrite filter_app, IH. destruct (Nat.eq_dec j s) as [E|E].
+    + subst s. rewrite filter_all by (intros t Ht; rewrite (H j t Ht); apply Nat.eqb_refl).
+      assert (E1 : (S j <=? j) = false) by (apply Nat.leb_gt; lia).
+      assert (E2 : (j <=? j) = true) by (apply Nat.leb_le; lia).
+      assert (E3 : (j <? j + S m) = true) by (apply Nat.ltb_lt; lia).
+      rewrite E1, E2, E3. cbn [andb]. apply app_nil_r.
+    + rewrite filter_none by (intros t Ht; rewrite (H s t Ht); apply Nat.eqb_neq; exact E). cbn [app].
+      destruct (S s <=? j) eqn:E1, (s <=? j) eqn:E2, (j <? S s + m) eqn:E3, (j <? s + S m) eqn:E4; cbn [andb]; try reflexivity;
+        rewrite ?Nat.leb_le, ?Nat.leb_gt, ?Nat.ltb_lt, ?Nat.ltb_ge in *; lia.
+Qed.
+
+Lemma fold_gstep_skip cmts eqs L : forall acc,
+  fold_left (gstep cmts eqs) L acc = fold_left (gstep cmts eqs) (filter (fun tr : triple => t_pos (snd tr)) L) acc.
+Proof.
+  induction L as [|[[i j] t] tl IH]; intros acc; cbn [filter fold_left snd]; [reflexivity|].
+  destruct (t_pos t) eqn:E; cbn [fold_left]; [apply IH|].
+  unfold gstep at 2. rewrite E. apply IH.
+Qed.
+
+Lemma find_from_unique eqs t f :
+  f < length eqs -> existsb (term_eqb (tneg t)) (nth_leq eqs f) = true ->
+  (forall f', f' < length eqs -> existsb (term_eqb (tneg t)) (nth_leq eqs f') = true -> f' = f) ->
+  find_from eqs t = Some f.
+Proof.
+  intros Hf Hin Huniq. unfold find_from. unfold nth_leq in *.
+  assert (H : forall (l : list leq) s acc,
+             (forall k, k < length l -> existsb (term_eqb (tneg t)) (nth k l []) = true -> s + k = f) ->
+             ((exists k, k < length l /\ existsb (term_eqb (tneg t)) (nth k l []) = true) \/ acc = Some f) ->
+             fold_left (fun acc ie => if existsb (term_eqb (tneg t)) (snd ie) then Some (fst ie) else acc)
+                       (combine (seq s (length l)) l) acc = Some f).
+  { induction l as [|row tl IH]; intros s acc H1 H2; cbn [length seq combine fold_left].
+    - destruct H2 as [[k [Hk _]]|H2]; [cbn in Hk; lia | exact H2].
+    - cbn [fst snd]. apply IH.
+      + intros k Hk Hex. specialize (H1 (S k)). cbn [length nth] in H1. rewrite <- H1; [lia | lia | exact Hex].
+      + destruct (existsb (term_eqb (tneg t)) row) eqn:E.
+        * right. f_equal. specialize (H1 0). cbn [length nth] in H1. rewrite <- H1; [lia | lia | exact E].
+        * destruct H2 as [[k [Hk Hex]]|H2]; [|right; exact H2].
+          destruct k as [|k]; [cbn [nth] in Hex; congruence|]. left. exists k. cbn [length nth] in Hk, Hex. split; [lia | exact Hex]. }
+  apply H.
+  - intros k Hk Hex. cbn [plus]. apply Huniq; assumption.
+  - left. exists f. split; assumption.
+Qed.
+
+Section RoundTrip.
+  Variable g : graph.
+  Hypothesis Hwf : WF g.
+  Hypothesis Hld : linear_distinct g = true.
+
+  Local Notation ns := (order g).
+  Local Notation n := (length (order g)).
+  Local Notation eqs := (terms_of g).
+  Local Notation cmts := (map default_comp (order g)).
+  Local Notation cn i := (nthc (order g) i).
+  Local Notation dcn i := (Cmt (nthc (map default_comp (order g)) i)).
+
+  Definition inflow_term (i j : nat) : leq :=
+    if Nat.eqb i j then []
+    else match adj_lookup (adj_of g (Cmt (cn j))) (Cmt (cn i)) with Some k => [mkT true k (Some j)] | None => [] end.
+  Definition outflow_terms (i : nat) : leq :=
+    flat_map (fun e => if node_eqb (fst e) (Cmt (cn i)) then [] else [mkT false (snd e) (Some i)]) (adj_of g (Cmt (cn i))).
+  Definition input_terms (i : nat) : leq := if has_input (cn i) then [mkT true (c_input (cn i)) None] else [].
+
+  Lemma ld_parts : no_self_loop g = true /\ names_unique (comps g) = true.
+  Proof.
+    pose proof Hld as H. unfold linear_distinct in H.
+    apply andb_prop in H. destruct H as [H _]. apply andb_prop in H. destruct H as [H _].
+    apply andb_prop in H. destruct H as [H _]. apply andb_prop in H. exact H.
+  Qed.
+
+  Lemma ns_NoDup : NoDup ns.
+  Proof. apply (Permutation_NoDup (Permutation_sym (order_perm_lemma g Hwf))). apply comps_NoDup, Hwf. Qed.
+
+  Lemma cn_in i : i < n -> In (cn i) (comps g).
+  Proof. intros H. apply (Permutation_in _ (order_perm_lemma g Hwf)). apply nthc_In, H. Qed.
+
+  Lemma cn_inj i j : i < n -> j < n -> cn i = cn j -> i = j.
+  Proof. intros Hi Hj E. apply (proj1 (NoDup_nth ns dflt) ns_NoDup i j Hi Hj E). Qed.
+
+  Lemma dcn_eq i : nthc cmts i = default_comp (cn i).
+  Proof. unfold nthc. change dflt with (default_comp dflt) at 1. apply map_nth. Qed.
+
+  Lemma dcn_inj i j : i < n -> j < n -> dcn i = dcn j -> i = j.
+  Proof.
+    intros Hi Hj E. injection E as E. rewrite !dcn_eq in E. apply cn_inj; try assumption.
+    apply (names_unique_spec _ (proj2 ld_parts)); [apply cn_in, Hi | apply cn_in, Hj|].
+    apply (f_equal c_name) in E. exact E.
+  Qed.
+
+  Lemma eqs_length : length eqs = n.
+  Proof. unfold terms_of. rewrite map_length, seq_length. reflexivity. Qed.
+
+  Lemma row_eq i : i < n ->
+    nth_leq eqs i = flat_map (inflow_term i) (seq 0 n) ++ outflow_terms i ++ input_terms i.
+  Proof. intros Hi. unfold nth_leq, terms_of. rewrite (nth_map_seq (terms_of_row g ns) [] n i Hi). reflexivity. Qed.
+
+  Lemma active_row i j : i < n -> j < n ->
+    filter t_pos (filter (has_amount j) (nth_leq eqs i)) = inflow_term i j.
+  Proof.
+    intros Hi Hj. rewrite (row_eq i Hi), !filter_app.
+    rewrite (filter_colour has_amount (inflow_term i)).
+    - assert (E1 : (0 <=? j) = true) by (apply Nat.leb_le; lia).
+      assert (E2 : (j <? 0 + n) = true) by (apply Nat.ltb_lt; lia). rewrite E1, E2. cbn [andb].
+      rewrite (filter_all t_pos (inflow_term i j)).
+      + rewrite (filter_none t_pos), (filter_none (has_amount j) (input_terms i)); [cbn [filter]; rewrite !app_nil_r; reflexivity | |].
+        * intros t Ht. unfold input_terms in Ht. destruct (has_input (cn i)); [|destruct Ht]. destruct Ht as [<-|[]]. reflexivity.
+        * intros t Ht. apply filter_In in Ht. destruct Ht as [Ht _]. unfold outflow_terms in Ht. apply in_flat_map in Ht.
+          destruct Ht as [e [_ Ht]]. destruct (node_eqb (fst e) (Cmt (cn i))); [destruct Ht|]. destruct Ht as [<-|[]]. reflexivity.
+      + intros t Ht. unfold inflow_term in Ht. destruct (Nat.eqb i j); [destruct Ht|].
+        destruct (adj_lookup _ _); [|destruct Ht]. destruct Ht as [<-|[]]. reflexivity.
+    - intros j0 t Ht j'. unfold inflow_term in Ht. destruct (Nat.eqb i j0); [destruct Ht|].
+      destruct (adj_lookup _ _); [|destruct Ht]. destruct Ht as [<-|[]]. unfold has_amount. cbn [t_a oa_eqb]. apply Nat.eqb_sym.
+  Qed.
+
+  Definition active : list triple :=
+    flat_map (fun i => flat_map (fun j => map (fun t => (i, j, t)) (inflow_term i j)) (seq 0 n)) (seq 0 n).
+
+  Lemma active_triples : filter (fun tr : triple => t_pos (snd tr)) (triples eqs) = active.
+  Proof.
+    unfold triples, active. rewrite eqs_length, filter_flat_map. apply flat_map_ext_in. intros i Hi. apply in_seq in Hi.
+    rewrite filter_flat_map. apply flat_map_ext_in. intros j Hj. apply in_seq in Hj.
+    rewrite filter_map_comm. cbn [snd]. rewrite active_row by lia. reflexivity.
+  Qed.
+
+  Lemma term_eqb_refl t : term_eqb t t = true.
+  Proof.
+    unfold term_eqb. rewrite eqb_reflx, (proj2 (expr_eqb_spec _ _) eq_refl). destruct (t_a t); cbn; [apply Nat.eqb_refl | reflexivity].
+  Qed.
+
+  Lemma term_eqb_parts s t : term_eqb s t = true -> t_pos s = t_pos t /\ t_k s = t_k t /\ t_a s = t_a t.
+  Proof.
+    unfold term_eqb. intros H. apply andb_prop in H. destruct H as [H H3]. apply andb_prop in H. destruct H as [H1 H2].
+    apply eqb_prop in H1. apply expr_eqb_spec in H2. split; [exact H1 | split; [exact H2|]].
+    destruct (t_a s), (t_a t); cbn in H3; try discriminate; [apply Nat.eqb_eq in H3; subst|]; reflexivity.
+  Qed.
+
+  Lemma no_self_flow c : get_flow g (Cmt c) (Cmt c) = Num 0%Q.
+  Proof.
+    unfold get_flow. destruct (adj_of_cases g (Cmt c)) as [Hin|[E _]]; [|rewrite E; reflexivity].
+    pose proof (proj1 ld_parts) as H. unfold no_self_loop in H. rewrite forallb_forall in H. specialize (H _ Hin). cbn [fst] in H.
+    unfold has_edge in H. destruct (adj_lookup (adj_of g (Cmt c)) (Cmt c)); [discriminate | reflexivity].
+  Qed.
+
+  Lemma neg_in_row f x : f < n -> In x (nth_leq eqs f) -> t_pos x = false -> t_a x = Some f.
+  Proof.
+    intros Hf Hin Hneg. rewrite (row_eq f Hf) in Hin. apply in_app_or in Hin. destruct Hin as [Hin|Hin].
+    - apply in_flat_map in Hin. destruct Hin as [j [_ Hin]]. unfold inflow_term in Hin. destruct (Nat.eqb f j); [destruct Hin|].
+      destruct (adj_lookup _ _); [|destruct Hin]. destruct Hin as [<-|[]]. discriminate.
+    - apply in_app_or in Hin. destruct Hin as [Hin|Hin].
+      + unfold outflow_terms in Hin. apply in_flat_map in Hin. destruct Hin as [e [_ Hin]].
+        destruct (node_eqb (fst e) (Cmt (cn f))); [destruct Hin|]. destruct Hin as [<-|[]]. reflexivity.
+      + unfold input_terms in Hin. destruct (has_input (cn f)); [|destruct Hin]. destruct Hin as [<-|[]]. discriminate.
+  Qed.
+
+  Lemma find_inflow i j k : i < n -> j < n -> i <> j ->
+    adj_lookup (adj_of g (Cmt (cn j))) (Cmt (cn i)) = Some k -> find_from eqs (mkT true k (Some j)) = Some j.
+  Proof.
+    intros Hi Hj Hij Hl. apply find_from_unique.
+    - rewrite eqs_length. exact Hj.
+    - apply existsb_exists. exists (mkT false k (Some j)). split; [|apply term_eqb_refl].
+      rewrite (row_eq j Hj). apply in_or_app. right. apply in_or_app. left. unfold outflow_terms. apply in_flat_map.
+      exists (Cmt (cn i), k). split; [apply adj_lookup_In, Hl|]. cbn [fst snd].
+      assert (E : node_eqb (Cmt (cn i)) (Cmt (cn j)) = false).
+      { apply node_eqb_false. intros E. injection E as E. apply Hij. apply cn_inj; assumption. }
+      rewrite E. left. reflexivity.
+    - intros f' Hf' Hex. rewrite eqs_length in Hf'. apply existsb_exists in Hex. destruct Hex as [x [Hx Ex]].
+      apply term_eqb_parts in Ex. cbn [tneg t_pos t_k t_a negb] in Ex. destruct Ex as [E1 [_ E3]].
+      pose proof (neg_in_row f' x Hf' Hx (eq_sym E1)) as Ha. rewrite <- E3 in Ha. injection Ha as Ha. symmetry. exact Ha.
+  Qed.
+
+  Definition act_ok (tr : triple) : Prop :=
+    let '(i, j, t) := tr in
+    i < n /\ j < n /\ i <> j /\
+    exists k, adj_lookup (adj_of g (Cmt (cn j))) (Cmt (cn i)) = Some k /\ t = mkT true k (Some j).
+
+  Lemma active_In i j t : In (i, j, t) active <-> i < n /\ j < n /\ In t (inflow_term i j).
+  Proof.
+    unfold active. rewrite in_flat_map. split.
+    - intros [i' [Hi' H]]. apply in_flat_map in H. destruct H as [j' [Hj' H]]. apply in_map_iff in H.
+      destruct H as [t' [E Ht']]. injection E as <- <- <-. apply in_seq in Hi', Hj'. repeat split; try lia. exact Ht'.
+    - intros [Hi [Hj Ht]]. exists i. split; [apply in_seq; lia|]. apply in_flat_map. exists j. split; [apply in_seq; lia|].
+      apply in_map_iff. exists t. split; [reflexivity | exact Ht].
+  Qed.
+
+  Lemma active_ok tr : In tr active -> act_ok tr.
+  Proof.
+    destruct tr as [[i j] t]. intros H. apply active_In in H. destruct H as [Hi [Hj Ht]]. unfold inflow_term in Ht.
+    destruct (Nat.eqb i j) eqn:E; [destruct Ht|]. apply Nat.eqb_neq in E.
+    destruct (adj_lookup (adj_of g (Cmt (cn j))) (Cmt (cn i))) as [k|] eqn:El; [|destruct Ht]. destruct Ht as [<-|[]].
+    repeat split; try assumption. exists k. split; [exact El | reflexivity].
+  Qed.
+
+  Definition pr (tr : triple) : nat * nat := (fst (fst tr), snd (fst tr)).
+
+  Lemma map_flat_map {A B C} (f : B -> C) (h : A -> list B) (l : list A) :
+    map f (flat_map h l) = flat_map (fun x => map f (h x)) l.
+  Proof. induction l as [|a tl IH]; cbn [flat_map map]; [reflexivity|]. rewrite map_app, IH. reflexivity. Qed.
+
+  Lemma active_pairs_NoDup : NoDup (map pr active).
+  Proof.
+    unfold active. rewrite map_flat_map. apply NoDup_flat_map; [apply seq_NoDup| |].
+    - intros i _. rewrite map_flat_map. apply NoDup_flat_map; [apply seq_NoDup| |].
+      + intros j _. rewrite map_map. unfold inflow_term. destruct (Nat.eqb i j); [constructor|].
+        destruct (adj_lookup _ _); cbn [map]; [constructor; [intros []|constructor] | constructor].
+      + intros j j' z _ _ Hz Hz'. rewrite map_map in Hz, Hz'. apply in_map_iff in Hz, Hz'.
+        destruct Hz as [t [E _]]. destruct Hz' as [t' [E' _]]. unfold pr in E, E'. cbn [fst snd] in E, E'. congruence.
+    - intros i i' z _ _ Hz Hz'. rewrite map_flat_map in Hz, Hz'. apply in_flat_map in Hz, Hz'.
+      destruct Hz as [j [_ Hz]]. destruct Hz' as [j' [_ Hz']]. rewrite map_map in Hz, Hz'. apply in_map_iff in Hz, Hz'.
+      destruct Hz as [t [E _]]. destruct Hz' as [t' [E' _]]. unfold pr in E, E'. cbn [fst snd] in E, E'. congruence.
+  Qed.
+
+  Lemma gstep_active acc i j t : act_ok (i, j, t) -> get_flow acc (dcn j) (dcn i) = Num 0%Q ->
+    gstep cmts eqs acc (i, j, t) = add_edge acc (dcn j) (dcn i) (t_k t).
+  Proof.
+    intros [Hi [Hj [Hij [k [Hl ->]]]]] Hc. unfold gstep. cbn [t_pos t_k]. rewrite (find_inflow i j k Hi Hj Hij Hl), Hc.
+    reflexivity.
+  Qed.
+
+  Lemma G_fold : forall L acc,
+    (forall tr, In tr L -> act_ok tr) -> NoDup (map pr L) ->
+    (forall i j t, In (i, j, t) L -> get_flow acc (dcn j) (dcn i) = Num 0%Q) ->
+    forall x y,
+      (forall i j t, In (i, j, t) L -> x = dcn j -> y = dcn i ->
+                     get_flow (fold_left (gstep cmts eqs) L acc) x y = t_k t) /\
+      ((forall i j t, In (i, j, t) L -> ~ (x = dcn j /\ y = dcn i)) ->
+       get_flow (fold_left (gstep cmts eqs) L acc) x y = get_flow acc x y).
+  Proof.
+    induction L as [|[[i j] t] tl IH]; intros acc Hok Hnd Hzero x y; cbn [fold_left].
+    - split; [intros i j t [] | reflexivity].
+    - cbn [map] in Hnd. inversion Hnd as [|? ? Hhd Htl]; subst.
+      assert (Hok0 : act_ok (i, j, t)) by (apply Hok; left; reflexivity).
+      rewrite (gstep_active acc i j t Hok0 (Hzero i j t (or_introl eq_refl))).
+      set (acc' := add_edge acc (dcn j) (dcn i) (t_k t)).
+      assert (Hdiff : forall i' j' t', In (i', j', t') tl -> ~ (dcn j' = dcn j /\ dcn i' = dcn i)).
+      { intros i' j' t' Hin [E1 E2]. destruct (Hok (i', j', t') (or_intror Hin)) as [Hi' [Hj' _]].
+        destruct Hok0 as [Hi [Hj _]]. apply (dcn_inj j' j Hj' Hj) in E1. apply (dcn_inj i' i Hi' Hi) in E2. subst.
+        apply Hhd. apply in_map_iff. exists (i, j, t'). split; [reflexivity | exact Hin]. }
+      assert (Hzero' : forall i' j' t', In (i', j', t') tl -> get_flow acc' (dcn j') (dcn i') = Num 0%Q).
+      { intros i' j' t' Hin. unfold acc'. rewrite get_flow_add_edge.
+        destruct (node_eqb (dcn j') (dcn j) && node_eqb (dcn i') (dcn i)) eqn:E.
+        - apply andb_prop in E. destruct E as [E1 E2]. apply node_eqb_spec in E1, E2. exfalso. apply (Hdiff i' j' t' Hin). split; assumption.
+        - apply (Hzero i' j' t'). right. exact Hin. }
+      destruct (IH acc' (fun tr H => Hok tr (or_intror H)) Htl Hzero' x y) as [I1 I2]. split.
+      + intros i0 j0 t0 [Hin|Hin] Ex Ey.
+        * injection Hin as <- <- <-. rewrite I2.
+          -- unfold acc'. rewrite get_flow_add_edge. subst x y. rewrite !node_eqb_refl. reflexivity.
+          -- intros i' j' t' Hin' [E1 E2]. subst x y. apply (Hdiff i' j' t' Hin'). split; symmetry; assumption.
+        * apply (I1 i0 j0 t0); assumption.
+      + intros Hno. rewrite I2.
+        * unfold acc'. rewrite get_flow_add_edge.
+          destruct (node_eqb x (dcn j) && node_eqb y (dcn i)) eqn:E; [|reflexivity].
+          apply andb_prop in E. destruct E as [E1 E2]. apply node_eqb_spec in E1, E2. exfalso.
+          apply (Hno i j t (or_introl eq_refl)). split; assumption.
+        * intros i' j' t' Hin'. apply (Hno i' j' t'). right. exact Hin'.
+  Qed.
+
+  Definition g0 : graph := fold_left (fun gr c => add_node gr (Cmt c)) cmts empty_builder.
+  Definition g1 : graph := fold_left (gstep cmts eqs) (triples eqs) g0.
+
+  Lemma g0_flow x y : get_flow g0 x y = Num 0%Q.
+  Proof.
+    unfold g0. generalize cmts as l. intros l.
+    assert (H : forall gr, get_flow gr x y = Num 0%Q -> get_flow (fold_left (fun gr c => add_node gr (Cmt c)) l gr) x y = Num 0%Q).
+    { induction l as [|c tl IH]; intros gr Hg; cbn [fold_left]; [exact Hg|]. apply IH. rewrite get_flow_add_node. exact Hg. }
+    apply H. unfold get_flow, empty_builder. cbn [adj_of]. destruct (node_eqb Out x); reflexivity.
+  Qed.
+
+  Lemma g1_active : g1 = fold_left (gstep cmts eqs) active g0.
+  Proof. unfold g1. rewrite fold_gstep_skip, active_triples. reflexivity. Qed.
+
+  (* Phase A: after the main loop every flow between compartments is there, nothing else *)
+  Lemma g1_flows a b : a < n -> b < n -> get_flow g1 (dcn a) (dcn b) = get_flow g (Cmt (cn a)) (Cmt (cn b)).
+  Proof.
+    intros Ha Hb. rewrite g1_active.
+    destruct (G_fold active g0 active_ok active_pairs_NoDup (fun i j t _ => g0_flow _ _) (dcn a) (dcn b)) as [I1 I2].
+    destruct (Nat.eq_dec a b) as [E|E].
+    - subst b. rewrite no_self_flow, I2; [apply g0_flow|].
+      intros i j t Hin [E1 E2]. destruct (active_ok _ Hin) as [Hi [Hj [Hij _]]].
+      apply (dcn_inj a j Ha Hj) in E1. apply (dcn_inj a i Ha Hi) in E2. congruence.
+    - unfold get_flow at 2. destruct (adj_lookup (adj_of g (Cmt (cn a))) (Cmt (cn b))) as [k|] eqn:El.
+      + rewrite (I1 b a (mkT true k (Some a))); [reflexivity | | reflexivity | reflexivity].
+        apply active_In. repeat split; try assumption. unfold inflow_term.
+        assert (Eb : Nat.eqb b a = false) by (apply Nat.eqb_neq; congruence). rewrite Eb, El. left. reflexivity.
+      + rewrite I2; [apply g0_flow|]. intros i j t Hin [E1 E2]. destruct (active_ok _ Hin) as [Hi [Hj [Hij [k [Hl _]]]]].
+        apply (dcn_inj a j Ha Hj) in E1. apply (dcn_inj b i Hb Hi) in E2. subst. congruence.
+  Qed.
+
+  Lemma g1_out a : get_flow g1 (dcn a) Out = Num 0%Q.
+  Proof.
+    rewrite g1_active.
+    destruct (G_fold active g0 active_ok active_pairs_NoDup (fun i j t _ => g0_flow _ _) (dcn a) Out) as [_ I2].
+    rewrite I2; [apply g0_flow|]. intros i j t _ [_ E]. discriminate.
+  Qed.
+
+  (* to_compartmental_system = the final pass applied to the result of the two independent folds *)
+  Lemma rebuilt_unfold :
+    rebuilt g = let ne := fold_left (nstep eqs) (triples eqs) eqs in
+                fold_left (final_eq cmts (amounts g)) (combine (seq 0 (length ne)) ne) g1.
+  Proof. unfold rebuilt, to_cs. fold g0. rewrite main_loop_split. reflexivity. Qed.
+End RoundTrip.
+
+(* The term-matching loop of to_compartmental_system, for systems of ANY size: after the loop over equations,
+   amounts and terms the builder graph holds exactly the flows of g between compartments — every +k*A_j in the
+   equation of i was matched with the -k*A_j of equation j (and of no other equation), entered once as the flow
+   j -> i with rate k, and nothing goes to output yet. *)
+Theorem matching_loop_flows_lemma g :
+  WF g -> linear_distinct g = true ->
+  let cmts := map default_comp (order g) in
+  let n := length (order g) in
+  (forall a b, a < n -> b < n ->
+     get_flow (g1 g) (Cmt (nthc cmts a)) (Cmt (nthc cmts b)) = get_flow g (Cmt (nthc (order g) a)) (Cmt (nthc (order g) b))) /\
+  (forall a, get_flow (g1 g) (Cmt (nthc cmts a)) Out = Num 0%Q) /\
+  rebuilt g = (let ne := fold_left (nstep (terms_of g)) (triples (terms_of g)) (terms_of g) in
+               fold_left (final_eq cmts (amounts g)) (combine (seq 0 (length ne)) ne) (g1 g)).
+Proof.
+  intros Hwf Hld cmts n. split; [|split].
+  - intros a b Ha Hb. apply g1_flows; assumption.
+  - intros a. apply g1_out; assumption.
+  - apply rebuilt_unfold.
+Qed.
+
+(* every positive term k*A_j of equation i (j <> i, flow j -> i with rate k) finds its partner -k*A_j in equation j
+   and only there *)
+Theorem find_inflow_lemma g i j k :
+  WF g -> linear_distinct g = true -> i < length (order g) -> j < length (order g) -> i <> j ->
+  adj_lookup (adj_of g (Cmt (nthc (order g) j))) (Cmt (nthc (order g) i)) = Some k ->
+  find_from (terms_of g) (mkT true k (Some j)) = Some j.
+Proof. intros Hwf Hld Hi Hj Hij Hl. apply (find_inflow g Hwf i j k); assumption. Qed.
